@@ -88,7 +88,7 @@ func compareReaderModel(rep *Report, pool *DriverPool, c interface{}, dict, deli
 		diff = fmt.Sprintf("final error: model %s, implementation %s", m.Err, got)
 	case exact && !truncated && !bytes.Equal(o.Bytes, m.Bytes):
 		diff = fmt.Sprintf("model hands out %d bytes, implementation %d", len(m.Bytes), len(o.Bytes))
-	case exact && truncated && len(m.Bytes)-len(o.Bytes) > 3*258:
+	case exact && truncated && len(m.Bytes)-len(o.Bytes) > 2: // theorem engine_progress: at most 2 bytes are withheld
 		diff = fmt.Sprintf("truncated stream: model hands out %d bytes, implementation only %d", len(m.Bytes), len(o.Bytes))
 	case exact && m.Err == "EOF" && consumed >= 0 && consumed != m.Consumed:
 		diff = fmt.Sprintf("after io.EOF the implementation has consumed %d source bytes, the model %d", consumed, m.Consumed)
